@@ -196,9 +196,42 @@ def _binop(models, it, op, a, b, node):
 HOOKS["binop"].insert(0, _binop)
 
 
+def _closed_comprehension(it, e, fr):
+    if len(e.generators) != 1 or e.generators[0].ifs:
+        return False
+    own = set()
+    for n in ast.walk(e.generators[0].target):
+        if isinstance(n, ast.Name):
+            own.add(n.id)
+    for n in ast.walk(e.elt):
+        if isinstance(n, ast.Attribute) and "random" in n.attr:
+            return False
+        if isinstance(n, ast.Name) and isinstance(n.ctx, ast.Load) and n.id not in own:
+            if "random" in n.id:
+                return False
+            f, found = fr, False
+            while f is not None:
+                if n.id in f.env:
+                    found = True
+                    break
+                f = f.parent
+            if found:
+                return False            # a local / parameter: the result depends on more than the list
+            mod = fr.module
+            if mod is None or not (n.id in mod.imports or n.id in mod.functions or n.id in mod.classes):
+                return False
+    return True
+
+
 def _comp(models, it, e, iterable, fr, kind):
     # a comprehension over an opaque list / with an opaque filter is an opaque list
     if kind == "list" and isinstance(iterable, SOpaque) and iterable.sort in ("AnyList", "AnyKeys", "AnyVals", "AnyDict"):
+        if _closed_comprehension(it, e, fr):
+            # the element expression mentions nothing but the comprehension's own variables and module-level library
+            # functions (none of them random): the result is a deterministic function of the list
+            f = it.ctx.uf("comp@%s:%d" % (fr.fi.qualname if fr.fi is not None else "?", e.lineno),
+                          it.ctx.sort(iterable.sort), it.ctx.sort("AnyList"))
+            return SOpaque("AnyList", f(iterable.t))
         return mk(it, "AnyList", "comp")
     if kind in ("list", "dict"):
         # a filter / element expression that consults an opaque collection: which elements survive is unknown
@@ -323,12 +356,58 @@ def _spec_bag_within(self, e, fr):
 X.Interp.spec_bag_within = _spec_bag_within
 
 
+def _list_term(it, v, node):
+    if isinstance(v, SOpaque) and v.sort in ("AnyList", "AnyVals"):
+        return v.t
+    raise Unsupported("statistic of a list that is not opaque", node)
+
+
+def _norm_fit(models, it, args, kw, fr, node):
+    t = _list_term(it, args[0], node)
+    mu = it.ctx.uf("norm_fit_mu", t.sort(), REAL)(t)
+    sd = it.ctx.uf("norm_fit_std", t.sort(), REAL)(t)
+    it.ctx.fact(sd >= 0, key=("fitstd", sd.sexpr()))
+    models.note(it, "axiom:scipy.stats.norm.fit(sample) == (mu(sample), std(sample)), std >= 0 (uninterpreted functions of the sample)")
+    return (mu, sd)
+
+
+def _np_quantile(models, it, args, kw, fr, node):
+    t = _list_term(it, args[0], node)
+    q = it.run.num(args[1] if len(args) > 1 else kw["q"])
+    q = q if is_z3(q) else z3.RealVal(q)
+    if q.sort() == INT:
+        q = z3.ToReal(q)
+    method = kw.get("method", kw.get("interpolation", "linear"))
+    name = "np_quantile_%s" % (method if isinstance(method, str) else "m")
+    f = it.ctx.uf(name, t.sort(), REAL, REAL)
+    r = f(t, q)
+    reg = it.ctx.__dict__.setdefault("quantile_args", {}).setdefault(name, [])
+    for (t2, q2, r2) in reg:
+        if t2.eq(t) and not q2.eq(q):
+            it.ctx.fact(z3.And(z3.Implies(q2 <= q, r2 <= r), z3.Implies(q <= q2, r <= r2)), key=(name + "-mono", t.sexpr(), q.sexpr(), q2.sexpr()))
+    if not any(t2.eq(t) and q2.eq(q) for (t2, q2, r2) in reg):
+        reg.append((t, q, r))
+    models.note(it, "axiom:numpy.quantile / percentile of a fixed sample is monotone (non-decreasing) in the level")
+    return r
+
+
+def _np_percentile(models, it, args, kw, fr, node):
+    from .sym import arith
+    q = it.run.num(args[1] if len(args) > 1 else kw["q"])
+    kw2 = {k: v for k, v in kw.items() if k != "q"}
+    return _np_quantile(models, it, [args[0], arith("/", q, 100)], kw2, fr, node)
+
+
 def _np_dirichlet(models, it, args, kw, fr, node):
     models.note(it, "havoc:np.random.dirichlet (an arbitrary vector; only used as resampling weights)")
     return mk(it, "AnyList", "dirichlet")
 
 
 _arrays.EXTRA_EXT["numpy.random.dirichlet"] = _np_dirichlet
+_arrays.EXTRA_EXT["scipy.stats.norm.fit"] = _norm_fit
+_prev_quantile = _arrays.EXTRA_EXT.get("numpy.quantile")
+_arrays.EXTRA_EXT.setdefault("numpy.quantile", _np_quantile)
+_arrays.EXTRA_EXT.setdefault("numpy.percentile", _np_percentile)
 
 
 def _getitem_list(models, it, base, idx, node):
